@@ -711,3 +711,133 @@ func c11r7(rc *core.RC) {
 		rc.Check(found, key, fd.Pos(), "Init empties %s with a statement of its own body (x[:0], nil or 0), whatever the context brings along from its last run", field)
 	}
 }
+
+// ---- C11.R8 the map scratch buffer and the output buffer never trade arrays ----
+
+// A sorted map is written twice: its members go to the output buffer b in iteration order, and at OpMapEnd they are
+// copied in key order into the scratch buffer of the pooled MapContext and from there back over the unsorted text.
+// The two buffers belong to two pooled objects: b ends up in RuntimeContext.Buf, the scratch buffer goes back to the
+// map-context pool. The copy back (b = append(b[:first], buf...)) keeps them apart. Handing the arrays over instead
+// (mapCtx.Buf, b = b[:0], buf) is the same text with one copy less, and it holds as long as the call succeeds; a call
+// that fails after the map leaves RuntimeContext.Buf pointing at the array that now also sits in the map-context pool,
+// and the next sorted map sorts into the text it is still reading. Obligations in every interpreter: no value
+// assigned to MapContext.Buf derives from the output buffer (Run's []byte parameter), and no value assigned to the
+// output buffer derives from MapContext.Buf, other than as the copied operand of an append.
+func c11r8(rc *core.RC) {
+	p := rc.P
+	n := 0
+	for _, vm := range core.VMPkgs {
+		fd := p.Func(vm, "Run")
+		if fd == nil || fd.Body == nil {
+			rc.Unknown(vm+".Run", token.NoPos, "interpreter not found")
+			continue
+		}
+		info := p.Info(fd)
+		rc.Touch(vm + ".Run")
+		var out types.Object
+		for _, f := range fd.Type.Params.List {
+			if t := info.TypeOf(f.Type); t != nil && t.String() == "[]byte" && len(f.Names) > 0 {
+				out = info.Defs[f.Names[0]]
+			}
+		}
+		if out == nil {
+			rc.Unknown(vm+".Run/output-buffer", fd.Pos(), "no []byte parameter found")
+			continue
+		}
+		isMapBuf := func(e ast.Expr) bool {
+			f := core.FieldOf(info, e)
+			if f == nil || f.Name() != "Buf" {
+				return false
+			}
+			sel, ok := core.Unparen(e).(*ast.SelectorExpr)
+			return ok && strings.HasSuffix(strings.TrimPrefix(info.TypeOf(sel.X).String(), "*"), "encoder.MapContext")
+		}
+		// every assignment to a local, by object
+		defs := map[types.Object][]ast.Expr{}
+		ast.Inspect(fd.Body, func(m ast.Node) bool {
+			as, ok := m.(*ast.AssignStmt)
+			if !ok || len(as.Lhs) != len(as.Rhs) {
+				return true
+			}
+			for i, l := range as.Lhs {
+				if id, ok := core.Unparen(l).(*ast.Ident); ok {
+					if o := core.ObjOf(info, id); o != nil {
+						defs[o] = append(defs[o], as.Rhs[i])
+					}
+				}
+			}
+			return true
+		})
+		// the arrays a []byte expression may share: the output buffer, the map scratch buffer
+		var roots func(e ast.Expr, seen map[types.Object]bool) (fromOut, fromMap bool)
+		roots = func(e ast.Expr, seen map[types.Object]bool) (bool, bool) {
+			e = core.Unparen(e)
+			switch x := e.(type) {
+			case *ast.Ident:
+				o := core.ObjOf(info, x)
+				if o == out {
+					return true, false
+				}
+				if o == nil || seen[o] {
+					return false, false
+				}
+				seen[o] = true
+				a, b := false, false
+				for _, d := range defs[o] {
+					a2, b2 := roots(d, seen)
+					a, b = a || a2, b || b2
+				}
+				return a, b
+			case *ast.SelectorExpr:
+				return false, isMapBuf(x)
+			case *ast.SliceExpr:
+				return roots(x.X, seen)
+			case *ast.CallExpr:
+				if core.IsBuiltin(info, x, "append") && len(x.Args) > 0 {
+					return roots(x.Args[0], seen)
+				}
+				if tv, ok := info.Types[x.Fun]; ok && tv.IsType() && len(x.Args) == 1 {
+					return roots(x.Args[0], seen)
+				}
+				a, b := false, false
+				if t := info.TypeOf(x); t != nil && t.String() == "[]byte" {
+					for _, arg := range x.Args {
+						if at := info.TypeOf(arg); at != nil && at.String() == "[]byte" {
+							a2, b2 := roots(arg, seen)
+							a, b = a || a2, b || b2
+						}
+					}
+				}
+				return a, b
+			}
+			return false, false
+		}
+		k := 0
+		ast.Inspect(fd.Body, func(m ast.Node) bool {
+			as, ok := m.(*ast.AssignStmt)
+			if !ok || len(as.Lhs) != len(as.Rhs) {
+				return true
+			}
+			for i, l := range as.Lhs {
+				switch {
+				case isMapBuf(l):
+					k++
+					n++
+					fromOut, _ := roots(as.Rhs[i], map[types.Object]bool{})
+					rc.Check(!fromOut, fmt.Sprintf("%s.Run/map-scratch-assign#%d not-the-output-array", vm, k), as.Pos(), "%s = %s: the scratch buffer of the pooled MapContext must not be (a part of) the output buffer's array; a call that fails afterwards leaves RuntimeContext.Buf on the same array, and two pooled objects share it from then on", core.Src(p.Fset, l), core.Src(p.Fset, as.Rhs[i]))
+				case core.ObjOf(info, l) == out:
+					_, fromMap := roots(as.Rhs[i], map[types.Object]bool{out: true})
+					if fromMap {
+						k++
+						n++
+						rc.Bad(fmt.Sprintf("%s.Run/output-assign#%d not-the-map-scratch-array", vm, k), as.Pos(), "%s = %s: the output buffer takes over the array of the pooled MapContext's scratch buffer (only a copy, append(b, buf...), keeps the two pooled objects apart)", core.Src(p.Fset, l), core.Src(p.Fset, as.Rhs[i]))
+					}
+				}
+			}
+			return true
+		})
+	}
+	if n < 4 {
+		rc.Unknown("vm/map-scratch-assignments", token.NoPos, "found %d assignments to MapContext.Buf in the interpreters (confirmed: 4)", n)
+	}
+}
